@@ -332,7 +332,7 @@ func check(id, tier string, rest []string) int {
 					fail("%s: native replay failed: %v", r.Harness, err)
 					continue
 				}
-				ok, why := compareNative(out, sm.Observes, nil)
+				ok, why := compareNative(out, sm.Observes, sm.FailsAll)
 				if ok {
 					validated++
 					os.Remove(rp)
@@ -664,7 +664,7 @@ func nativeFailed(out, assertID string) bool {
 
 // compareNative checks that the native run saw the observed values the
 // engine computed and that no assertion failed (sampled paths are passing paths).
-func compareNative(out string, observes map[string]string, _ []string) (bool, string) {
+func compareNative(out string, observes map[string]string, failsAll string) (bool, string) {
 	got := map[string]string{}
 	for _, line := range strings.Split(out, "\n") {
 		switch {
@@ -674,6 +674,9 @@ func compareNative(out string, observes map[string]string, _ []string) (bool, st
 				got[kv[0]] = kv[1]
 			}
 		case strings.HasPrefix(line, "VERIF-ASSERT-FAIL "):
+			if f := strings.Fields(line); failsAll != "" && len(f) >= 2 && f[1] == failsAll {
+				continue // the engine, too, found this assertion failing on every input of the path
+			}
 			return false, "native run fails " + line
 		case strings.HasPrefix(line, "VERIF-PANIC"):
 			return false, "native run panics: " + line
@@ -682,6 +685,9 @@ func compareNative(out string, observes map[string]string, _ []string) (bool, st
 		case strings.HasPrefix(line, "VERIF-ASSUME-FALSE"):
 			return false, "native run violates an assumption"
 		}
+	}
+	if failsAll != "" && !strings.Contains(out, "VERIF-ASSERT-FAIL "+failsAll) {
+		return false, "engine found assertion " + failsAll + " failing on every input of the path, the native run does not fail it"
 	}
 	for k, v := range observes {
 		if g, ok := got[k]; !ok {
